@@ -11,9 +11,9 @@ use crate::common::*;
 use crate::shapes::*;
 use crate::with_shape;
 use embedded_graphics::{
-    pixelcolor::Rgb565,
+    pixelcolor::{BinaryColor, Gray8, Rgb565, Rgb888},
     prelude::*,
-    primitives::{ContainsPoint, Rectangle, Styled},
+    primitives::{ContainsPoint, PrimitiveStyle, PrimitiveStyleBuilder, Rectangle, StrokeAlignment, Styled},
 };
 
 pub struct M;
@@ -27,12 +27,62 @@ fn shift_map(m: &PMap, d: Point) -> PMap {
     m.iter().map(|((y, x), c)| ((y + d.y, x + d.x), *c)).collect()
 }
 
-fn small_map(m: &PMap) -> String {
-    if m.len() <= 600 {
-        fmt_map(m)
-    } else {
-        format!("big:{}", m.len())
+/// Colour types of `styled.paths` besides the default Rgb565 (optional last token of the op): the
+/// fill / stroke colour each uses in place of the `7` / `9` of the style grid. The model is colour
+/// agnostic (colours are raw numbers), so the values only have to be valid raw values of the type.
+const COLOUR_TYPES: [(&str, &str, &str); 3] = [("binary", "1", "0"), ("gray8", "7", "200"), ("rgb888", "1193046", "16702650")];
+
+/// Style tokens of the grid (`7` fill, `9` stroke) with the colours of colour type `ct`.
+fn recolour(style: &str, ct: &str) -> String {
+    let (_, f, st) = COLOUR_TYPES.iter().find(|c| c.0 == ct).expect("colour type");
+    let v: Vec<&str> = style.split(' ').collect();
+    format!("{} {} {} {}", if v[0] == "-" { "-" } else { f }, if v[1] == "-" { "-" } else { st }, v[2], v[3])
+}
+
+/// `parse_style` of shapes.rs for any colour type.
+fn parse_style_c<C: ColNum>(t: &mut Toks) -> PrimitiveStyle<C> {
+    let fill = t.str();
+    let stroke = t.str();
+    let width = t.u32();
+    let align = t.u32();
+    let mut b = PrimitiveStyleBuilder::new().stroke_width(width).stroke_alignment(match align {
+        0 => StrokeAlignment::Inside,
+        1 => StrokeAlignment::Center,
+        _ => StrokeAlignment::Outside,
+    });
+    if fill != "-" {
+        let n: u32 = fill.parse().unwrap();
+        let c = C::from_num(n);
+        assert!(c.num() == n, "{} is not a raw value of the colour type", n);
+        b = b.fill_color(c);
     }
+    if stroke != "-" {
+        let n: u32 = stroke.parse().unwrap();
+        let c = C::from_num(n);
+        assert!(c.num() == n, "{} is not a raw value of the colour type", n);
+        b = b.stroke_color(c);
+    }
+    b.build()
+}
+
+/// The three drawing paths of C01 for one styled shape with colour type `C`: (map of `draw()` on R1,
+/// its call log, map of `draw()` on R2, map of `pixels()` fed to `draw_iter`).
+fn paths_run<C: ColNum>(op: &str, tb: Rectangle) -> (PMap, String, PMap, PMap) {
+    let mut t = Toks::new(op);
+    let _ = t.str();
+    let shape = Shape::parse(&mut t);
+    let style: PrimitiveStyle<C> = parse_style_c(&mut t);
+    with_shape!(&shape, p => {
+        let s = Styled::new(p.clone(), style);
+        let mut r1 = R1::<C>::new(tb);
+        s.draw(&mut r1).unwrap();
+        let mut r2 = R2::<C>::new(tb);
+        s.draw(&mut r2).unwrap();
+        let mut rp = R1::<C>::new(tb);
+        rp.draw_iter(s.pixels()).unwrap();
+        let l1 = r1.rec.fmt_log();
+        (r1.rec.map, l1, r2.rec.map, rp.rec.map)
+    })
 }
 
 impl Module for M {
@@ -42,7 +92,7 @@ impl Module for M {
     fn rule(&self) -> &'static str {
         "styled primitives: exhaustive grid of shapes (all rect/ellipse sizes 0..=N squared, circle diameters 0..=2N, rounded rectangles with equal and unequal radii, \
          all lines / selected triangles / polylines with 0..=4 vertices on a lattice crossing the axes, arcs and sectors on an angle grid) x styles \
-         (4 colour options x stroke widths x 3 alignments) x (C01: 3 target boxes; C07: 6 offsets), then seeded random display-scale shapes. \
+         (4 colour options x stroke widths x 3 alignments) x (C01: 3 target boxes, Rgb565 everywhere plus every 7th (shape, style) pair with BinaryColor / Gray8 / Rgb888 in rotation and an eighth of the random ops; C07: 6 offsets), then seeded random display-scale shapes. \
          Non-trivial: the drawable paints at least one pixel (or, for C02 transparency, the style is transparent and the shape non-empty); distinct = distinct op text."
     }
 
@@ -79,13 +129,24 @@ impl Module for M {
                         if (i + 2 * j) % 3 == 0 {
                             emit(format!("styled.paths {} {} {}", sh, st, tbox_list()[k]));
                         }
+                        // "x colour types": every 7th pair again with another colour type (rotating
+                        // through the three, the unbounded and the clipping box alternating)
+                        if (3 * i + j) % 7 == 0 {
+                            let ct = COLOUR_TYPES[((3 * i + j) / 7) % 3].0;
+                            emit(format!("styled.paths {} {} {} {}", sh, recolour(st, ct), tbox_list()[((3 * i + j) / 21) % 2], ct));
+                        }
                     }
                 }
-                for _ in 0..nrand {
+                for n in 0..nrand {
                     let sh = random_shape(rng, 300, 90);
                     let st = random_style(rng, 24);
                     let tb = if rng.chance(1, 2) { "-4096 -4096 8192 8192".to_string() } else { format!("{} {} {} {}", rng.range(-200, 100), rng.range(-200, 100), rng.range(0, 300), rng.range(0, 300)) };
-                    emit(format!("styled.paths {} {} {}", sh, st, tb));
+                    if n % 8 == 7 {
+                        let ct = COLOUR_TYPES[(n / 8) % 3].0;
+                        emit(format!("styled.paths {} {} {} {}", sh, recolour(&st, ct), tb, ct));
+                    } else {
+                        emit(format!("styled.paths {} {} {}", sh, st, tb));
+                    }
                 }
             }
             "C02" => {
@@ -151,16 +212,16 @@ impl Module for M {
                 } else if tb.size.width < 100 {
                     ctx.count("paths:clipping-target");
                 }
-                let (m1, l1, m2, _l2, mp) = with_shape!(&shape, p => {
-                    let s = Styled::new(p.clone(), style);
-                    let mut r1 = R1::<Rgb565>::new(tb);
-                    s.draw(&mut r1).unwrap();
-                    let mut r2 = R2::<Rgb565>::new(tb);
-                    s.draw(&mut r2).unwrap();
-                    let mut rp = R1::<Rgb565>::new(tb);
-                    rp.draw_iter(s.pixels()).unwrap();
-                    { let l1 = r1.rec.fmt_log(); let l2 = r2.rec.fmt_log(); (r1.rec.map, l1, r2.rec.map, l2, rp.rec.map) }
-                });
+                // optional colour type (default Rgb565); the three paths are the same generic code
+                let ct = t.opt().unwrap_or("rgb565");
+                ctx.count(&format!("paths:colour:{}", ct));
+                let (m1, l1, m2, mp) = match ct {
+                    "rgb565" => paths_run::<Rgb565>(op, tb),
+                    "binary" => paths_run::<BinaryColor>(op, tb),
+                    "gray8" => paths_run::<Gray8>(op, tb),
+                    "rgb888" => paths_run::<Rgb888>(op, tb),
+                    other => panic!("unknown colour type {}", other),
+                };
                 if !m1.is_empty() {
                     ctx.nontrivial(op);
                 }
@@ -170,7 +231,7 @@ impl Module for M {
                     let only_px = mp.iter().filter(|(k, v)| m1.get(k) != Some(v)).count();
                     format!("draw() {} px, pixels() {} px, {} only/different in draw, {} only/different in pixels", m1.len(), mp.len(), only_draw, only_px)
                 });
-                format!("r1={} r2eq={} pxeq={} log={}", small_map(&m1), (m1 == m2) as u8, (m1 == mp) as u8, if l1.len() <= 4000 { l1 } else { format!("big:{}", l1.len()) })
+                format!("r1={} r2eq={} pxeq={} log={}", small_map(&m1), (m1 == m2) as u8, (m1 == mp) as u8, small_text(l1, 4000))
             }
             "styled.bbox" => {
                 let (bb, m) = with_shape!(&shape, p => {
@@ -190,7 +251,7 @@ impl Module for M {
                     ctx.count("bbox:transparent");
                     ctx.expect(m.is_empty(), &format!("C02:transparent-draws:{}", kind), || format!("{} px drawn with a transparent style", m.len()));
                 }
-                format!("bb={} n={} out={}", fmt_rect(&bb), m.len(), out.len())
+                format!("bb={} n={} h={} out={}", fmt_rect(&bb), m.len(), map_digest(&m), out.len())
             }
             "styled.areas" => {
                 macro_rules! areas {
@@ -348,7 +409,7 @@ impl Module for M {
                     _ => 0,
                 };
                 ctx.expect(cbad == 0, &format!("C07:contains-not-shifted:{}", kind), || format!("{} probe(s) differ", cbad));
-                format!("n={} shifted={} bb={} bbd={}", m0.len(), (md == want) as u8, fmt_rect(&bb0), fmt_rect(&bbd))
+                format!("n={} h={} shifted={} bb={} bbd={}", m0.len(), map_digest(&m0), (md == want) as u8, fmt_rect(&bb0), fmt_rect(&bbd))
             }
             other => panic!("unknown op {}", other),
         }
